@@ -372,6 +372,9 @@ func checkC03(p *Prog, r *Report) {
 			r.Fail("nomination senders", "", "no caller of sendNominationRequest found")
 		}
 	}
+	// ---- R3.8 answers of an earlier session select nothing ------------------------------------------------
+	r.Rule("R3.8", "The table of outstanding transactions is emptied on every path of the Restart task and of the Failed transition (shared with C01 R1.11): a late success response to a nomination sent before the restart finds no transaction, so it cannot mark a pair of the new session Succeeded and select it.", 2)
+	checkPendingWipe(p, r)
 }
 
 // checkSwitchPredicate compares shouldSwitchSelectedPair with the specified
